@@ -304,7 +304,7 @@ b('C19', 'unknown potential returns zero', BPA, "        return self._potentials
 b('C19', 'load accepts negative reference', NE, "    if I_ref <= 0 and V_ref < 0:", "    if I_ref < -1 and V_ref < 0:", 'R19.load')
 b('C19', 'branch ids de-duplicated before the check', NN, "        return [b.id for b in self.branches]", "        return list(dict.fromkeys(b.id for b in self.branches))", 'R19.invariants')
 # ---- C20
-b('C20', 'global cache written', NA, "class DimensionError(Exception):\n    ...\n", "class DimensionError(Exception):\n    ...\n\n_Y_CACHE = {}\n\ndef _remember(network, Y):\n    _Y_CACHE[id(network)] = Y\n    return Y\n", 'R20.global')
+b('C20', 'global cache written', NA, "    return Q@Is\n\ndef nodal_analysis_constants_vector(", "    return _remember(network, Q@Is)\n\n_Y_CACHE = {}\n\ndef _remember(network, Y):\n    _Y_CACHE[id(network)] = Y\n    return Y\n\ndef nodal_analysis_constants_vector(", 'R20.global')
 b('C20', 'lru_cache on a transformer', CC, "def w(f: float) -> float:", "import functools\n@functools.lru_cache(maxsize=None)\ndef w(f: float) -> float:", 'R20.global')
 b('C20', 'default dict written', SSM, "    Delta = element_incidence_matrix(c_values)", "    c_values.setdefault('_n', 0)\n    Delta = element_incidence_matrix(c_values)", 'R20')
 b('C20', 'keep default appended', NT, "    def zero_in_voltage(branch: Branch) -> Branch:", "    keep.append(None)\n    def zero_in_voltage(branch: Branch) -> Branch:", 'R20')
